@@ -326,7 +326,7 @@ struct Interp {
         }
         if (n == "append" || n == "prepend") {
             int o = other_slot(op.i(0));
-            if (((op.i(0) % 7) + 7) % 7 == 6) { o = cur; ctx.label(n + ":the-same-object-on-both-sides"); interesting = true; }   // x.append(x): a value operation like any other
+            if (((op.i(0) % 7) + 7) % 7 == 6 && mo.text.size() <= 32768) { o = cur; ctx.label(n + ":the-same-object-on-both-sides"); interesting = true; }   // (bounded: every self-append doubles the text)   // x.append(x): a value operation like any other
             Snap before = snap(cur);
             int r = (n == "append") ? c01_append(cur, o) : c01_prepend(cur, o);
             if (o < 0) {
@@ -378,7 +378,7 @@ struct Interp {
             std::string repl;
             int o = -1;
             bool isnull = false;
-            if (n == "splice") { o = other_slot(op.i(4)); if (((op.i(4) % 7) + 7) % 7 == 6) { o = cur; ctx.label("splice:the-same-object-on-both-sides"); interesting = true; } if (o >= 0) repl = m[o].text; }
+            if (n == "splice") { o = other_slot(op.i(4)); if (((op.i(4) % 7) + 7) % 7 == 6 && mo.text.size() <= 32768) { o = cur; ctx.label("splice:the-same-object-on-both-sides"); interesting = true; } if (o >= 0) repl = m[o].text; }
             else { isnull = op.i(4) == 1; if (!isnull) repl = expand(op.s(0), op.i(5, 1)); }
             pos_label("splice", icls);
             Snap before = snap(cur);
